@@ -344,6 +344,10 @@ impl Gen {
                 _ => json!({"op":"Clone","s":s,"d":d}),
             };
         }
+        // now and then: execute C04's sentence (fill the map up to its capacity with unseen keys)
+        if !self.cfg.zst && len + 40 < self.cfg.nkeys as usize * 3 && self.rng.gen_bool(if split { 0.06 } else { 0.02 }) {
+            return json!({"op":"Probe","s":s});
+        }
         let r2 = self.rng.gen_range(0..100);
         match r2 {
             0..=13 => {
